@@ -29,10 +29,19 @@ NestedOn(d, h, t, nts) == LET x == Drop(d, h, t)
                               y == [paths |-> x.paths \cup {Append(h, t)}, nest |-> x.nest \cup {Append(h, t)}] IN
                           TagsOn(y, Append(h, t), nts)
 
-\* protowire.Number.IsValid on |k| (k = 0 is invalid; the reserved range 19000-19999 is invalid)
+\* Validity of a tag k (judged on |k|, negative tags being the raw-access form).  The Def documentation excludes 0, numbers beyond
+\* 2^29-1 and the reserved range 19000-19999; protowire.Number.IsValid, which Validate calls, stopped rejecting the reserved range
+\* in recent google.golang.org/protobuf releases.  The property is silent on the reserved range, so it is left open ("may"):
+\* TagBad = certainly invalid, TagGood = certainly valid.
 Abs(k) == IF k < 0 THEN -k ELSE k
-TagOK(k) == Abs(k) >= 1 /\ Abs(k) <= 536870911 /\ ~(Abs(k) >= 19000 /\ Abs(k) <= 19999)
-Valid(d) == \A p \in d.paths : \A i \in 1..Len(p) : TagOK(p[i])
+Reserved(k) == Abs(k) >= 19000 /\ Abs(k) <= 19999
+TagBad(k) == Abs(k) < 1 \/ Abs(k) > 536870911
+TagGood(k) == ~TagBad(k) /\ ~Reserved(k)
+TagOK(k) == ~TagBad(k)
+AllTags(d) == UNION {{p[i] : i \in 1..Len(p)} : p \in d.paths}
+MustBeValid(d) == \A k \in AllTags(d) : TagGood(k)
+MustBeInvalid(d) == \E k \in AllTags(d) : TagBad(k)
+Valid(d) == ~MustBeInvalid(d)
 
 \* structural sanity: every path hangs under nested Defs
 WellFormed(d) == /\ d.nest \subseteq d.paths
@@ -41,6 +50,6 @@ WellFormed(d) == /\ d.nest \subseteq d.paths
 \* Get(t) on handle h: (value is nested?, mapping exists?)
 GetRef(d, h, t) == [ok |-> Append(h, t) \in d.paths, nested |-> Append(h, t) \in d.nest]
 
-\* NewDecoder(def, WithMaxBufferSize(n) | WithBufferFilterFunc(nil)) succeeds iff the definition and the options are valid
-NewDecoderOK(d, maxbuf, nilfilter) == Valid(d) /\ maxbuf >= -1 /\ ~nilfilter      \* -1 = option not given
+\* NewDecoder(def, WithMaxBufferSize(n) | WithBufferFilterFunc(nil)) succeeds iff Validate succeeds and the options are valid
+OptionsOK(maxbuf, nilfilter) == maxbuf >= -1 /\ ~nilfilter      \* -1 = option not given
 =============================================================================
